@@ -197,3 +197,80 @@ Section Unknown.
     rewrite !fold_left_app. cbn [fold_left]. rewrite (step_vendor _ c _ u (Hr c eq_refl) Hd). reflexivity.
   Qed.
 End Unknown.
+
+(** ---- warnings: a non-vendor unknown child adds exactly one UnknownTagWarning, naming its tag, and changes nothing else ---- *)
+Section Warns.
+  Variable sval : Type.
+  Variable conv : N -> sin sval -> result (option sval).
+  Variable S : schema.
+  Notation acc := (acc sval).
+  Notation step := (step sval).
+  Notation from_etree := (from_etree sval conv S).
+
+  (** [ins t ws ws']: ws' is ws with one more entry t *)
+  Definition ins (t : string) (ws ws' : list string) : Prop := exists a b, ws = (a ++ b)%list /\ ws' = (a ++ t :: b)%list.
+  Definition ins_state (t : string) (st st' : result acc) : Prop :=
+    match st, st' with
+    | OK (args, kw, p, pl, ws, rn), OK (args', kw', p', pl', ws', rn') =>
+      args = args' /\ kw = kw' /\ p = p' /\ pl = pl' /\ rn = rn' /\ ins t ws ws'
+    | Err j, Err k => j = k
+    | _, _ => False
+    end.
+
+  Lemma ins_cons t x ws ws' : ins t ws ws' -> ins t (x :: ws) (x :: ws').
+  Proof. intros (a & b & -> & ->). exists (x :: a), b. split; reflexivity. Qed.
+  Lemma ins_app t l ws ws' : ins t ws ws' -> ins t (l ++ ws) (l ++ ws').
+  Proof. intros (a & b & -> & ->). exists (l ++ a)%list, b. rewrite <- !app_assoc. split; reflexivity. Qed.
+
+  Lemma step_ins fe c t st st' e : ins_state t st st' -> ins_state t (step fe c st e) (step fe c st' e).
+  Proof.
+    intro H. destruct st as [[[[[[args kw] p] pl] ws] rn]|j], st' as [[[[[[args' kw'] p'] pl'] ws'] rn']|k]; cbn in H; try contradiction; [|cbn; exact H].
+    destruct H as (-> & -> & -> & -> & -> & Hi). unfold Convert.step.
+    destruct (groomed_tag c rn' (etag e)) as [tag rn2].
+    destruct (has_dot tag); [cbn; auto 7|].
+    destruct (index_of (lower tag) (map fst (ci_spec c))) as [idx|]; [|cbn; repeat split; try reflexivity; apply ins_cons; exact Hi].
+    destruct (assoc (lower tag) (ci_spec c)) as [at_|]; [|cbn; repeat split; try reflexivity; apply ins_cons; exact Hi].
+    destruct (Nat.ltb idx p' && negb (is_list_attr at_ && pl'))%bool; [cbn; reflexivity|].
+    set (rv := if is_unsup at_ then OK (KNone sval, @nil string)
+               else if text_truthy (etext e) then OK (match etext e with Some s => KText sval s | None => KNone sval end, [])
+               else if negb (String.eqb tag (etag e)) then Err Reject
+               else match fe e with OK (i, w) => OK (KInst sval i, w) | Err k => Err k end).
+    destruct rv as [[v w]|k]; [|cbn; reflexivity].
+    destruct (is_list_attr at_); [cbn; repeat split; try reflexivity; apply ins_app; exact Hi|].
+    destruct (kw_has sval kw' (lower tag)); [cbn; reflexivity|]. cbn. repeat split; try reflexivity. apply ins_app. exact Hi.
+  Qed.
+
+  Lemma fold_ins fe c t l : forall st st', ins_state t st st' -> ins_state t (fold_left (step fe c) l st) (fold_left (step fe c) l st').
+  Proof. induction l as [|e l IH]; intros st st' H; [exact H|]. cbn [fold_left]. apply IH. apply step_ins. exact H. Qed.
+
+  Lemma step_unknown_warns fe c st u :
+    (match ci_rename c with Some (wire, _) => etag u <> wire | None => True end) ->
+    has_dot (etag u) = false -> index_of (lower (etag u)) (map fst (ci_spec c)) = None ->
+    ins_state (etag u) st (step fe c st u).
+  Proof.
+    intros Hr Hd Hi. destruct st as [a|k]; [|cbn; reflexivity].
+    destruct a as [[[[[args kw] p] pl] ws] rn]. unfold Convert.step. rewrite (groomed_tag_other c rn _ Hr), Hd, Hi.
+    cbn. repeat split; try reflexivity. exists [], ws. split; reflexivity.
+  Qed.
+
+  Lemma ins_rev t ws ws' : ins t ws ws' -> ins t (rev ws) (rev ws').
+  Proof. intros (a & b & -> & ->). exists (rev b), (rev a). rewrite !rev_app_distr. cbn [rev]. rewrite <- app_assoc. split; reflexivity. Qed.
+
+  (** the contaminated document converts to the same instance, and its warnings are those of the clean document plus one: the inserted tag *)
+  Theorem unknown_insert_warns_l tag x ch1 ch2 u i w :
+    (forall c, lookup_tag S tag = Some c ->
+       (match ci_rename c with Some (wire, _) => etag u <> wire | None => True end)
+       /\ has_dot (etag u) = false /\ index_of (lower (etag u)) (map fst (ci_spec c)) = None) ->
+    from_etree (Node tag x (ch1 ++ ch2)) = OK (i, w) ->
+    exists w', from_etree (Node tag x (ch1 ++ u :: ch2)) = OK (i, w') /\ ins (etag u) w w'.
+  Proof.
+    intros Hu H. cbn [Convert.from_etree] in *. destruct (lookup_tag S tag) as [c|]; [|discriminate].
+    destruct (Hu c eq_refl) as (Hr & Hd & Hi). rewrite fold_left_app in *. cbn [fold_left].
+    pose proof (fold_ins from_etree c (etag u) ch2 _ _ (step_unknown_warns from_etree c (fold_left (Convert.step sval from_etree c) ch1 (OK (acc0 sval))) u Hr Hd Hi)) as Hf.
+    destruct (fold_left (Convert.step sval from_etree c) ch2 (fold_left (Convert.step sval from_etree c) ch1 (OK (acc0 sval)))) as [a|k]; [|discriminate].
+    destruct (fold_left (Convert.step sval from_etree c) ch2 (Convert.step sval from_etree c (fold_left (Convert.step sval from_etree c) ch1 (OK (acc0 sval))) u)) as [a'|k']; [|destruct a as [[[[[? ?] ?] ?] ?] ?]; cbn in Hf; contradiction].
+    destruct a as [[[[[args kw] p] pl] ws] rn], a' as [[[[[args' kw'] p'] pl'] ws'] rn']. cbn in Hf. destruct Hf as (<- & <- & _ & _ & _ & Hins).
+    destruct (construct sval conv S tag (rev args) (rev kw)) as [j|k]; [|discriminate]. cbn in *. injection H as <- <-.
+    exists (rev ws'). split; [reflexivity|apply ins_rev; exact Hins].
+  Qed.
+End Warns.
